@@ -183,3 +183,21 @@ def run(chk, prog):
                     bad.append((s['kind'], gfn.loc(s['bb'])))
         chk.decide(RD, chk.key(RD, 'remove-never-panics'), not bad, 'no unguarded panic site',
                    'remove_variable_observer has unguarded panic site(s) %s' % bad, bad[0][1] if bad else None)
+
+    # ---- the batch is opened once per continue, not once per slice
+    RE = 'C11.batch-opened-once-per-continue'
+    chk.rule(RE, 'In continue_internal start_variable_observation (which empties the set of changed names) runs only when '
+             'async_continue_active was false at entry, i.e. when a continue starts - not when a time-limited continue is '
+             'resumed: names recorded by earlier slices would be wiped and their observers never told.')
+    if ci is not None:
+        from rules.c08 import entry_async_flow
+        gfa = entry_async_flow(prog, tr, ci)
+        sites_ = [bb for bb, t in ci.calls() if callee_short(t) == 'VariablesState::start_variable_observation']
+        if chk.anchor(RE, 'start_variable_observation in continue_internal', sites_):
+            for i, bb in enumerate(sites_):
+                vs = gfa.valuations_at(bb, ['entry:async'])
+                chk.decide(RE, chk.key(RE, 'site', '#%d' % i), bool(vs) and all(v['entry:async'] is False for v in vs),
+                           'reached only when no time-limited continue is in progress',
+                           'start_variable_observation is reachable while a time-limited continue is being resumed (entry '
+                           'valuations %s): the names changed in earlier slices of the same continue are forgotten' % vs,
+                           ci.loc(bb))
